@@ -25,6 +25,9 @@ pub struct HostSpec {
     pub register_before_step: u32,
     /// task 0 is the main future, the others are spawned with tokio::spawn
     pub tasks: Vec<Vec<TimerOp>>,
+    /// host software returns Ok(()) after its ops instead of running forever (clients always finish)
+    #[serde(default)]
+    pub finishes: bool,
 }
 
 #[derive(Clone, Debug, Serialize, Deserialize)]
@@ -115,7 +118,7 @@ async fn host_main(sh: Shared, host: usize, inc: u32, spec: HostSpec) -> turmoil
     for h in handles {
         let _ = h.await;
     }
-    if !spec.client {
+    if !spec.client && !spec.finishes {
         // host software that never finishes
         std::future::pending::<()>().await;
     }
@@ -186,6 +189,7 @@ impl Property for C05 {
                 client: rng.chance(1, 3),
                 register_before_step: if rng.chance(2, 3) { 1 } else { rng.range(2, steps as u64 / 2 + 2) as u32 },
                 tasks: (0..nt).map(|_| gen_ops(rng, tick_ms)).collect(),
+                finishes: rng.chance(1, 3),
             });
         }
         let mut script = Vec::new();
@@ -409,6 +413,9 @@ impl Property for C05 {
         }
         if sc.cfg.tick_us % 1000 != 0 {
             rep.probes.inc("fractional_ms_tick");
+        }
+        if sc.hosts.iter().enumerate().any(|(i, h)| h.finishes && !h.client && obs.iter().any(|o| o.host == i && o.inc > 1)) {
+            rep.probes.inc("finished_host_bounced_and_observed");
         }
         rep
     }
